@@ -424,6 +424,53 @@ def run(ctx):
                                                        f"{float(np.min(eps_))} (< 1) to the optimiser: edges weaker than w_max/n_epochs would be used "
                                                        f"in every epoch", case)
         ctx.case(key="tref" + om, nontrivial=bool(seen), part="transform-reference", output_metric=om, optimiser=seen[0][0] if seen else "none")
+    # ---- the scheduling stage of a real fit (prune -> eliminate_zeros -> make_epochs_per_sample) vs Schedule.schedule ----
+    sched_pend = []
+    for t in range(6 if ctx.thorough else 2):
+        Xq, _ = gen.dataset(rng, int(rng.integers(60, 120)), 4, kind="clusters")
+        ne = int(rng.choice([11, 30, 100]))
+        rec_ = []
+        orig_m = UU.make_epochs_per_sample
+
+        def wrap_m(weights, n_epochs):
+            out = orig_m(weights, n_epochs)
+            rec_.append((np.array(weights, dtype=np.float64, copy=True), n_epochs, np.array(out, dtype=np.float64, copy=True)))
+            return out
+        UU.make_epochs_per_sample = wrap_m
+        try:
+            mq = umap.UMAP(n_neighbors=int(rng.integers(8, 25)), n_epochs=ne, random_state=2, set_op_mix_ratio=float(rng.choice([1.0, 0.3])),
+                           init="random").fit(Xq)
+        except Exception as e:  # noqa
+            ctx.violation("exception", f"fit raised {type(e).__name__}: {e}", {"family": "schedule", "n_epochs": ne})
+            continue
+        finally:
+            UU.make_epochs_per_sample = orig_m
+        gq = mq.graph_.tocoo(copy=True)
+        gq.sum_duplicates()
+        ws = gq.data.astype(np.float64)
+        thr = float(np.float32(gq.data.max()) / np.float32(ne))
+        case = {"family": "schedule", "n_epochs": ne, "edges": int(len(ws))}
+        if not rec_:
+            ctx.mismatch("schedule", "make_epochs_per_sample was not reached through umap.umap_", case)
+            continue
+        if np.any(np.abs(ws - thr) < 1e-6 * thr):
+            ctx.skip("a weight within float32 rounding of the pruning threshold")
+            continue
+        w_in, n_in, eps_out = rec_[0]
+        # clause on the implementation: what reaches the scheduler is exactly the edges at or above w_max / n_epochs, each with period w_max / w
+        if n_in != ne or len(w_in) != int((ws >= thr).sum()) or float(np.min(eps_out)) < 1.0 or float(np.max(eps_out)) > ne * (1 + 1e-5):
+            ctx.violation("schedule", f"fit hands {len(w_in)} edges with periods in [{float(np.min(eps_out))}, {float(np.max(eps_out))}] to the optimiser; "
+                                      f"{int((ws >= thr).sum())} edges are at or above w_max/n_epochs (n_epochs = {ne})", case)
+        sched_pend.append((drv.add("schedule", ne, len(ws), *[f2b(float(v)) for v in ws]), eps_out, case))
+        ctx.case(key="sched" + str(ws[:5].tolist()) + str(ne), nontrivial=bool((ws < thr).any()), part="schedule", n_epochs=ne)
+
+    if sched_pend:
+        souts = drv.run()
+        for h_, eps_out, case in sched_pend:
+            mo = np.array([b2f(x) for x in souts[h_].split()])
+            if mo.shape != eps_out.shape or np.max(np.abs(mo - eps_out) / np.maximum(1.0, np.abs(eps_out))) > 1e-5:
+                ctx.mismatch("schedule", {"impl_len": int(len(eps_out)), "model_len": int(len(mo)),
+                                          "max_rel_diff": float(np.max(np.abs(mo - eps_out) / np.maximum(1.0, np.abs(eps_out)))) if mo.shape == eps_out.shape else -1.0}, case)
     # the kernels' documented default is a fixed reference: calls that rely on it
     for t in range(4):
         g = random_graph(rng, dyadic=True)
